@@ -6,7 +6,7 @@ namespace Strax.FS
 open Strax
 
 theorem rank_ge16_cases {x : Item} (h : 16 ≤ rank x) (h' : rank x ≤ 25) :
-    (∃ ci, x = .append ci) ∨ (∃ i ops, x = .submit i ops) ∨ x = .join ∨ x = .poll ∨ x = .waitAll ∨
+    (∃ ci, x = .append ci) ∨ (∃ i ops, x = .submit i ops) ∨ x = .markUnreg ∨ x = .join ∨ x = .poll ∨ x = .waitAll ∨
     x = .flushOpen .chunk ∨ x = .flushWrite .chunk ∨ x = .flushClose .chunk ∨ x = .waitQuiet ∨ x = .markClosed ∨
     x = .checkTemp ∨ x = .collect ∨ (∃ i, x = .readInfo i) ∨ (∃ i, x = .op (.unlink .temp (.cmeta i))) ∨
     x = .flushOpen .last ∨ x = .flushWrite .last ∨ x = .flushClose .last ∨ x = .op (.renameDir .temp .final) ∨
@@ -22,11 +22,15 @@ theorem inv_sav_late {cs : List Chunk} {v : Variant} {c c' : Cfg} (hcs : cs ≠ 
   | cons x rest =>
     have hk' := hk; rw [hp] at hk'; simp only [hr_cons] at hk'
     have hle := rank_head_le h hp
-    rcases rank_ge16_cases hk' hle with ⟨ci, rfl⟩ | ⟨i, ops, rfl⟩ | rfl | rfl | rfl | rfl | rfl | rfl | rfl | rfl | rfl | rfl |
+    rcases rank_ge16_cases hk' hle with ⟨ci, rfl⟩ | ⟨i, ops, rfl⟩ | rfl | rfl | rfl | rfl | rfl | rfl | rfl | rfl | rfl | rfl | rfl |
       ⟨i, rfl⟩ | ⟨i, rfl⟩ | rfl | rfl | rfl | rfl | rfl
     all_goals (unfold step at hs; simp only [hp] at hs)
     · injection hs with hs; subst hs; exact inv_append h hp
     · injection hs with hs; subst hs; exact inv_submit h hp
+    · -- the write just submitted is not yet in `pending`
+      injection hs with hs; subst hs
+      have := inv_unreg (inv_pass (x := .markUnreg) h hp (Or.inr (Or.inr (Or.inr (Or.inr rfl)))) (by simp) (by simp)) true
+      simpa using this
     · -- join
       split at hs
       · simp at hs
@@ -35,10 +39,17 @@ theorem inv_sav_late {cs : List Chunk} {v : Variant} {c c' : Cfg} (hcs : cs ≠ 
         injection hs with hs; subst hs
         exact inv_pass h hp (Or.inl rfl) (fun _ => ⟨h1, h2⟩) (by simp)
     · -- poll
+      have hpoll : ∀ ws, (if anyFailed ws = true then some c.fail
+          else some { c with prog := rest, unreg := false }) = some c' → Inv cs v c' := by
+        intro ws hs
+        split at hs
+        · injection hs with hs; subst hs; exact inv_fail h (by rw [hp]; simp)
+        · injection hs with hs; subst hs
+          have := inv_unreg (inv_pass h hp (Or.inr (Or.inl rfl)) (by simp) (by simp)) false
+          simpa using this
       split at hs
-      · injection hs with hs; subst hs; exact inv_fail h (by rw [hp]; simp)
-      · injection hs with hs; subst hs
-        exact inv_pass h hp (Or.inr (Or.inl rfl)) (by simp) (by simp)
+      · exact hpoll _ hs
+      · exact hpoll _ hs
     · -- waitAll
       split at hs
       · simp at hs
@@ -64,7 +75,7 @@ theorem inv_sav_late {cs : List Chunk} {v : Variant} {c c' : Cfg} (hcs : cs ≠ 
     · -- checkTemp
       split at hs
       · injection hs with hs; subst hs
-        exact inv_pass h hp (Or.inr (Or.inr (Or.inr rfl))) (by simp) (by simp)
+        exact inv_pass h hp (Or.inr (Or.inr (Or.inr (Or.inl rfl)))) (by simp) (by simp)
       · injection hs with hs; subst hs; exact inv_opFail h (by rw [hp]; simp)
     · injection hs with hs; subst hs; exact inv_collect h hp
     · -- readInfo
@@ -171,6 +182,8 @@ theorem inv_step {cs : List Chunk} {v : Variant} {c c' : Cfg} (hcs : cs ≠ []) 
         exact inv_wrk_fail h hk hst
       · simp at hs
     · simp at hs
+  | orph k => simp only [step] at hs; exact inv_orph h hs
+  | orphFail k => simp only [step] at hs; exact inv_orph h hs
 
 theorem inv_run {cs : List Chunk} {v : Variant} (hcs : cs ≠ []) : ∀ (acts : List Act) {c c' : Cfg}, Inv cs v c →
     run c acts = some c' → Inv cs v c' := by
@@ -190,9 +203,9 @@ theorem inv_run {cs : List Chunk} {v : Variant} (hcs : cs ≠ []) : ∀ (acts : 
 
 
 /-- the invariant holds when a saver is created on a safe file system -/
-theorem inv_init {cs : List Chunk} {fs : FS} (hsafe : SafeFS cs fs) (v : Variant) (hs : HandlerSpec) :
-    Inv cs v (initCfg fs v {} cs hs) := by
-  have hshape := shape_saverProg v cs
+theorem inv_init {cs : List Chunk} {fs : FS} (hsafe : SafeFS cs fs) (v : Variant) (hs : HandlerSpec)
+    (hv : v ≠ .forked) (hsv : hs.variant ≠ .forked) : Inv cs v (initCfg fs v {} cs hs) := by
+  have hshape := shape_saverProg v hv cs
   have hk : hr (saverProg v {} cs) = 0 := by rw [saverProg_eq]; rfl
   constructor
   · exact hshape
@@ -214,18 +227,21 @@ theorem inv_init {cs : List Chunk} {fs : FS} (hsafe : SafeFS cs fs) (v : Variant
   · intro h12 _; simp only [initCfg] at h12; omega
   · intro h19 _; simp only [initCfg] at h19; omega
   · intro h25; simp only [initCfg] at h25; omega
+  · exact ⟨⟨hv, hsv⟩, by intro w hw; simp [initCfg] at hw, by intro w hw; simp [initCfg] at hw,
+      by intro hh; simp [initCfg] at hh⟩
 
 /-- file-system states reachable by any number of `make` attempts of the current protocol, each with any variant,
 any handler behaviour, any schedule and any faults, stopped (process death) at any point -/
 inductive Reach (cs : List Chunk) : FS → Prop where
   | empty : Reach cs FS.empty
   | attempt {fs : FS} {v : Variant} {hs : HandlerSpec} {acts : List Act} {c' : Cfg} :
-      Reach cs fs → start fs = .save → run (initCfg fs v {} cs hs) acts = some c' → Reach cs c'.fs
+      Reach cs fs → v ≠ .forked → hs.variant ≠ .forked → start fs = .save →
+      run (initCfg fs v {} cs hs) acts = some c' → Reach cs c'.fs
 
 theorem reach_safe {cs : List Chunk} (hcs : cs ≠ []) {fs : FS} (h : Reach cs fs) : SafeFS cs fs := by
   induction h with
   | empty => intro d hd; simp [FS.empty] at hd
-  | attempt _ _ hrun ih => exact (inv_run hcs _ (inv_init ih _ _) hrun).safe
+  | attempt _ hv hsv _ hrun ih => exact (inv_run hcs _ (inv_init ih _ _ hv hsv) hrun).safe
 
 /-- what a safe file system looks like to a reader -/
 theorem safe_visible {cs : List Chunk} {fs : FS} (h : SafeFS cs fs) :
@@ -265,17 +281,33 @@ inductive StepKind (c c' : Cfg) : Prop where
   | failure (hne : c.prog ≠ []) (f : Bool) (hf : f = true ∨ f = c.failed) (he : c' = { c with failed := f }.fail) : StepKind c c'
   /-- the saver is through -/
   | finish (rest : List Item) (hp : c.prog = .finish :: rest)
-      (he : c' = { c with prog := rest, out := if c.handling then .raised else .success }) : StepKind c c'
+      (he : c' = { c with prog := rest, out := if c.handling || (c.spec.variant == .forked && anyFailed c.workers) then .raised else .success }) :
+      StepKind c c'
   /-- a chunk writer moves on / fails -/
   | worker (k : Nat) (w w' : Worker) (hk : c.workers[k]? = some w) (hrun : w.st = .running)
       (hw : c'.workers = c.workers.set k w') (hp : c'.prog = c.prog) (hh : c'.handling = c.handling) (ho : c'.out = c.out)
       (hs : c'.spec = c.spec)
       (hf : (w'.st ≠ .failed ∧ c'.failed = c.failed) ∨ (w'.st = .failed ∧ c'.failed = true)) : StepKind c c'
+  /-- a chunk write that the handler does not wait for moves on / fails -/
+  | orphan (hk : c.orphans ≠ []) (hp : c'.prog = c.prog) (hw : c'.workers = c.workers) (hh : c'.handling = c.handling)
+      (ho : c'.out = c.out) (hs : c'.spec = c.spec) : StepKind c c'
 
 theorem doOp_kind (c : Cfg) (o : Op) (x : Item) (rest : List Item) (hp : c.prog = x :: rest) : StepKind c (c.doOp o rest) := by
   rcases doOp_eq c o rest with ⟨fs', _, he⟩ | he
   · rw [he]; exact .progress (by rw [hp]; simp) rfl rfl rfl rfl (Or.inl rfl)
   · rw [he]; exact .failure (by rw [hp]; simp) true (Or.inl rfl) rfl
+
+theorem stepOrph_kind {c c' : Cfg} {k : Nat} {b : Bool} (hs : stepOrph c k b = some c') : StepKind c c' := by
+  unfold stepOrph at hs
+  split at hs
+  · rename_i w hk
+    have hne : c.orphans ≠ [] := by intro e; simp [e] at hk
+    split at hs
+    · split at hs
+      · injection hs with hs; subst hs; exact .orphan hne rfl rfl rfl rfl rfl
+      · split at hs <;> (injection hs with hs; subst hs; exact .orphan hne rfl rfl rfl rfl rfl)
+    · simp at hs
+  · simp at hs
 
 theorem step_kind {c c' : Cfg} {a : Act} (hs : step c a = some c') : StepKind c c' := by
   cases a with
@@ -303,15 +335,22 @@ theorem step_kind {c c' : Cfg} {a : Act} (hs : step c a = some c') : StepKind c 
       injection hs with hs; subst hs
       refine .progress (by rw [hp]; simp) rfl rfl rfl rfl (Or.inr ⟨_, ?_, rfl⟩)
       simp only; split <;> simp
+    · rename_i hp; injection hs with hs; subst hs; exact .progress (by rw [hp]; simp) rfl rfl rfl rfl (Or.inl rfl)
     · rename_i hp
       split at hs
       · simp at hs
       · injection hs with hs; subst hs; exact .failure (by rw [hp]; simp) c.failed (Or.inr rfl) (by simp)
       · injection hs with hs; subst hs; exact .progress (by rw [hp]; simp) rfl rfl rfl rfl (Or.inl rfl)
-    · rename_i hp
+    · rename_i rest hp
+      have hpoll : ∀ ws, (if anyFailed ws = true then some c.fail
+          else some { c with prog := rest, unreg := false }) = some c' → StepKind c c' := by
+        intro ws hs
+        split at hs
+        · injection hs with hs; subst hs; exact .failure (by rw [hp]; simp) c.failed (Or.inr rfl) (by simp)
+        · injection hs with hs; subst hs; exact .progress (by rw [hp]; simp) rfl rfl rfl rfl (Or.inl rfl)
       split at hs
-      · injection hs with hs; subst hs; exact .failure (by rw [hp]; simp) c.failed (Or.inr rfl) (by simp)
-      · injection hs with hs; subst hs; exact .progress (by rw [hp]; simp) rfl rfl rfl rfl (Or.inl rfl)
+      · exact hpoll _ hs
+      · exact hpoll _ hs
     · rename_i hp
       split at hs
       · simp at hs
@@ -391,6 +430,8 @@ theorem step_kind {c c' : Cfg} {a : Act} (hs : step c a = some c') : StepKind c 
         exact .worker k w _ hk hst rfl rfl rfl rfl rfl (Or.inr ⟨rfl, rfl⟩)
       · simp at hs
     · simp at hs
+  | orph k => simp only [step] at hs; exact stepOrph_kind hs
+  | orphFail k => simp only [step] at hs; exact stepOrph_kind hs
 
 
 
@@ -403,6 +444,7 @@ theorem StepKind.spec {c c' : Cfg} (h : StepKind c c') : c'.spec = c.spec := by
   | failure _ f _ he => rw [he, fail_spec]
   | finish rest _ he => rw [he]
   | worker _ _ _ _ _ _ _ _ _ hs _ => exact hs
+  | orphan _ _ _ _ _ hs => exact hs
 
 /-- bookkeeping of the caller's outcome (for processors that look at every exception of the saver) -/
 structure Rep (c : Cfg) : Prop where
@@ -435,10 +477,18 @@ theorem rep_step {cs : List Chunk} {v : Variant} {c c' : Cfg} (hI : Inv cs v c) 
     simp only [hl, Bool.false_and, Bool.false_eq_true, if_false]
     split
     · exact ⟨fun h => absurd rfl h, fun _ => Or.inr (Or.inl rfl), fun h => Outcome.noConfusion h, fun h => Outcome.noConfusion h⟩
-    · refine ⟨fun _ => hrun, fun _ => Or.inl rfl, fun h => ?_, fun h => ?_⟩
-      · simp only at h; rw [hrun] at h; cases h
-      · simp only at h; rw [hrun] at h; cases h
+    · split
+      · refine ⟨fun _ => hrun, fun _ => Or.inl rfl, fun h => ?_, fun h => ?_⟩
+        · simp only at h; rw [hrun] at h; cases h
+        · simp only at h; rw [hrun] at h; cases h
+      · refine ⟨fun _ => hrun, fun _ => Or.inl rfl, fun h => ?_, fun h => ?_⟩
+        · simp only at h; rw [hrun] at h; cases h
+        · simp only at h; rw [hrun] at h; cases h
   | finish rest hp he =>
+    have hnf : (c.spec.variant == Variant.forked) = false := by
+      have := hI.side.nf.2
+      cases hv : c.spec.variant <;> simp_all
+    rw [hnf, Bool.false_and, Bool.or_false] at he
     subst he
     have hs : Shape (.finish :: rest) := hp ▸ hI.shape
     have hrest : rest = [] := by
@@ -501,6 +551,18 @@ theorem rep_step {cs : List Chunk} {v : Variant} {c c' : Cfg} (hI : Inv cs v c) 
       have := (hR.f2 hsu).2.2 w (List.mem_of_getElem? hk)
       rw [hrun] at this; cases this
 
+  | orphan hk hp hw hh ho hs =>
+    have hhand := hI.side.orphMode hk
+    refine ⟨fun h => by rw [ho]; exact hR.running (by rw [← hp]; exact h), fun _ => Or.inl (by rw [hh]; exact hhand), ?_, ?_⟩
+    · intro hsu
+      rw [ho] at hsu
+      have := (hR.f2 hsu).1
+      rw [hhand] at this; cases this
+    · intro hsu
+      rw [ho] at hsu
+      have := (hR.f2 hsu).1
+      rw [hhand] at this; cases this
+
 theorem rep_init (fs : FS) (v : Variant) (cs : List Chunk) (hs : HandlerSpec) : Rep (initCfg fs v {} cs hs) :=
   ⟨fun _ => rfl, fun h => by simp [initCfg] at h, fun h => by simp [initCfg] at h, fun h => by simp [initCfg] at h⟩
 
@@ -535,7 +597,7 @@ theorem rep_run {cs : List Chunk} {v : Variant} (hcs : cs ≠ []) : ∀ (acts : 
 
 
 /-- whatever the eager scheduler of the driver does (faults included) is a run of the machine -/
-theorem runAuto_run (o : RmOrder) (ft : Option Fault) : ∀ (fuel : Nat) (c : Cfg) (log : List Op),
+theorem runAuto_run (o : RmOrder) (ft : List Fault) : ∀ (fuel : Nat) (c : Cfg) (log : List Op),
     ∃ acts, run c acts = some (runAuto o ft fuel c log).cfg := by
   intro fuel
   induction fuel with
@@ -584,13 +646,14 @@ theorem runAuto_run (o : RmOrder) (ft : Option Fault) : ∀ (fuel : Nat) (c : Cf
 
 /-- the states the driver's `attempt` produces (current protocol) are reachable in the sense of `Reach` -/
 theorem attempt_reach {cs : List Chunk} {fs : FS} (h : Reach cs fs) (v : Variant) (hs : HandlerSpec) (o : RmOrder)
-    (ft : Option Fault) : Reach cs (attempt fs v {} cs hs o ft).1.cfg.fs := by
+    (fts : List Fault) (hv : v ≠ .forked) (hsv : hs.variant ≠ .forked) :
+    Reach cs (attempt fs v {} cs hs o fts).1.cfg.fs := by
   unfold attempt
   split
   · exact h
   · exact h
   · rename_i hst
-    obtain ⟨acts, ha⟩ := runAuto_run o ft (fuelFor (initCfg fs v {} cs hs)) (initCfg fs v {} cs hs) []
-    exact Reach.attempt h hst ha
+    obtain ⟨acts, ha⟩ := runAuto_run o fts (fuelFor (initCfg fs v {} cs hs)) (initCfg fs v {} cs hs) []
+    exact Reach.attempt h hv hsv hst ha
 
 end Strax.FS
